@@ -88,7 +88,12 @@ func checkMine(c mineCase) (h.Info, error) {
 	ctx, cancel := context.WithTimeout(context.Background(), 120*time.Second)
 	defer cancel()
 	dataIn := append([]byte{}, c.Data...)
-	nonce, err := powv2.New(c.Workers).Mine(ctx, dataIn, c.Target)
+	w, ok := workers[c.Workers]
+	if !ok {
+		w = powv2.New(c.Workers)
+		workers[c.Workers] = w
+	}
+	nonce, err := w.Mine(ctx, dataIn, c.Target)
 	info := h.Info{Class: "mine/" + c.Class}
 	if string(dataIn) != string(c.Data) {
 		return info, fmt.Errorf("v2.Mine modified data")
@@ -129,8 +134,13 @@ func checkMine(c mineCase) (h.Info, error) {
 	return info, nil
 }
 
+var workers = map[int]*powv2.Worker{} // reused from case to case
+
 func genMine(t *rapid.T) mineCase {
 	c := mineCase{Data: h.Bytes(t, "data", 0, 64), Workers: 1}
+	if h.Pick(t, "dlong", 10, 1) == 1 {
+		c.Data = h.BytesN(t, "datalong", h.OneOf(t, "dll", 120, 128, 129, 1000))
+	}
 	if h.Pick(t, "wk", 3, 1) == 1 {
 		c.Workers = h.OneOf(t, "workers", 2, 3, 4, 8, 16)
 	}
